@@ -78,7 +78,7 @@ class ArrayElt(Expr):
         return list.nth(convert_hol(self.ident, ctxt), convert_hol(self.idx, ctxt))
 
     def subst(self, inst):
-        return self
+        return ArrayElt(self.ident.subst(inst), self.idx.subst(inst))
 
 class Field(Expr):
     """Field of an identifier. This includes length of an array
@@ -109,7 +109,7 @@ class Field(Expr):
             raise NotImplementedError
 
     def subst(self, inst):
-        return self
+        return Field(self.ident.subst(inst), self.fieldname)
 
 class Const(Expr):
     """Constant value."""
